@@ -276,6 +276,13 @@ template <class M> static void nn_history(Ctx& c, const char* dname, int n, int 
   { NN a, b; a.Initialize(pts, dist, bucket); std::swap(a, b);
     if (save_str(b, 0) != ref_bin || a.NumPoints() != 0) c.viol("history:C17/nn/swap", cls, w); }
   c.event("serialisation round trips", 4);
+  // a USED tree re-initialised with this point set (another point set, bucket size and a few searches first) is the fresh tree, bit for bit
+  { NN u; std::vector<P> other; int m = r.range(0, 40); for (int i = 0; i < m; ++i) other.push_back(dist.query(r, pts));
+    try { u.Initialize(other, dist, (int)r.below(maxbucket + 1)); std::vector<int> ii; if (m) u.Search(other, dist, other[0], ii, 3);
+      u.Initialize(pts, dist, bucket);
+      if (save_str(u, 0) != ref_bin || u.NumPoints() != n) c.viol("history:C17/nn/re-Initialize-of-used-tree-differs-from-fresh-tree", cls, J(w).i("previous_n", m));
+    } catch (const std::exception& e) { c.viol("history:C17/nn/re-Initialize-threw", cls, J(w).str("what", e.what())); }
+    c.event("re-Initialize of a used tree judged against the fresh tree (bit exact)"); }
 
   // ---- queries
   int nq = heavy ? 6 : (n <= 10 ? 12 : 24);
